@@ -18,7 +18,7 @@ EXHAUSTIVE = {"quick": False, "thorough": False}
 TRUSTED = ["Spec/CssTok.v: the scanner defining `outside strings, comments and url()`",
            "props/outtree.py prints a generated tree as plain CSS; the plain-CSS reader of rsass rebuilds that tree "
            "(any mismatch shows as a correspondence disagreement)"]
-ASSUMPTIONS = ["writer model: nesting depth < 40 (Format::get_indent panics beyond; C01), no @function items, no placeholder selectors",
+ASSUMPTIONS = ["writer model: no @function items, no placeholder selectors (get_indent is capped at 80 columns as in rsass f9a5d45)",
                "leaf texts (selectors, names, formatted values, at-rule arguments) are opaque byte strings"]
 SHARD = 150
 
@@ -26,6 +26,7 @@ WITNESS = [
     {"kind": "scss", "src": 'a{x: unquote("}")}'},
     {"kind": "css", "src": "a{/* x\n      * y */b:c}"},
     {"kind": "css", "src": "/* a\n b */"},
+    {"kind": "scss", "src": "a{b{/*! x\n      * y */c:d}}"},
     {"kind": "scss", "src": "@supports (a b\n  ) {c {d: e}}\n"},
     {"kind": "scss", "src": "a {\n  b: c /* d\n}\n"},
     {"kind": "scss", "src": "a{b:c}"},
